@@ -2,6 +2,7 @@ import Rdm.Ops.Codec
 import Rdm.Generated.Facts
 import Rdm.Model.Pipeline
 import Rdm.Spec.C08
+import Rdm.Spec.C07
 namespace Rdm.Ops
 open Rdm
 
@@ -78,9 +79,17 @@ def opCheckC08 (args : List SExp) : R SExp := do
     pure (.atom (Spec.C08.explain (reqs.map fun r => (r.name, r.disabled, r.prob)) outs ds))
   | _ => throw "check-c08: arity"
 
+/-- `(check-c07 dmp)` — coherence of a state handed from one stage to the next -/
+def opCheckC07 (args : List SExp) : R SExp := do
+  match args with
+  | [d] =>
+    let dmp : DMP Rat ← decDMP d
+    pure (.atom (Spec.C07.explain dmp))
+  | _ => throw "check-c07: arity"
+
 def pipelineOps : List (String × (List SExp → R SExp)) :=
   [("listener-rank", opListenerRank), ("listener-removed", opListenerRemoved),
    ("listener-added", opListenerAdded), ("listener-merge", opListenerMerge),
-   ("process-biases", opProcessBiases), ("check-c08", opCheckC08)]
+   ("process-biases", opProcessBiases), ("check-c08", opCheckC08), ("check-c07", opCheckC07)]
 
 end Rdm.Ops
